@@ -277,12 +277,15 @@ def check_fourier_synthetic(rng, bad, stats, count=8):
         nfp = int(rng.integers(1, 6))
         for lasym in (True, False):
             R2, Z2 = random_surface(rng, ntheta, nphi, nfp, sym=not lasym)
-            # exactly covering ranges; larger ranges are alias-free (and therefore still an identity) only in a direction with an ODD
-            # number of points: modes beyond (N-1)/2 then vanish identically?  no - they alias; see `over` below
+            # exactly covering ranges.  NOT asserted for larger ranges: to_Fourier projects on every requested mode separately, so modes
+            # beyond the grid's Nyquist limit receive the amplitude of their aliases a second time and the inverse series is off by O(1)
+            # times the near-Nyquist content (measured 5e-2..2 on this data).  The maximum is reported as overcomplete_err, not asserted.
             mpol, ntor = ntheta // 2, nphi // 2
             e, _ = roundtrip(R2, Z2, nfp, mpol, ntor, lasym)
             n += 1
             stats['max_roundtrip'] = max(stats.get('max_roundtrip', 0.0), e)
+            if it == 0:
+                stats['overcomplete_err(not asserted)'] = max(stats.get('overcomplete_err(not asserted)', 0.0), roundtrip(R2, Z2, nfp, mpol + 1, ntor + 1, lasym)[0])
             if e > 1e-12:
                 bad('fourier:roundtrip', 'to_Fourier followed by the inverse series does not reproduce its input: relative %.3g (ntheta=%d, nphi=%d, mpol=%d, ntor=%d, nfp=%d, lasym=%s)'
                     % (e, ntheta, nphi, mpol, ntor, nfp, lasym), grid=[ntheta, nphi, nfp, mpol, ntor, lasym])
